@@ -510,6 +510,11 @@ class World:
                 saved = sys.stdout
                 sys.stdout = io.StringIO()
                 self.addCleanup(lambda: setattr(sys, 'stdout', saved))
+            if t.get('own_stderr'):
+                # the same for sys.stderr alone (the usual "silence stderr in setUp, put it back in a cleanup" pattern)
+                saved_err = sys.stderr
+                sys.stderr = io.StringIO()
+                self.addCleanup(lambda: setattr(sys, 'stderr', saved_err))
             self.addCleanup(self._cleanup)
             W.emit(tid, t, 'setUp')
             outcome(self, k['setup'], 'setUp')
